@@ -403,6 +403,51 @@ def _fresh_local(fn, name: str, _depth: int = 0) -> bool:
     return True
 
 
+def _param_always_fresh(repo, fn, pname: str) -> bool:
+    """Every call of module-level function `fn` in the package passes, for parameter `pname`, nothing / None or a name that the calling
+    function (or a function enclosing it) binds to a freshly built container -- and there is at least one such call."""
+    from ..index import index, in_pkg
+    if fn.cls is not None or fn.outer is not None:
+        return False
+    ps = fn.params
+    if pname not in ps:
+        return False
+    pos = ps.index(pname)
+    sites = [s_ for s_ in index(repo).calls(fn.name, refs=False) if in_pkg(s_) and s_.func is not None]
+    if not sites:
+        return False
+    handed = 0
+    for s_ in sites:
+        c = s_.node
+        a = None
+        for k in c.keywords:
+            if k.arg == pname:
+                a = k.value
+            elif k.arg is None:
+                return False
+        if a is None and len(c.args) > pos:
+            a = c.args[pos]
+        if any(isinstance(x, ast.Starred) for x in c.args):
+            return False
+        if a is None or (isinstance(a, ast.Constant) and a.value is None):
+            continue
+        if not isinstance(a, ast.Name):
+            return False
+        f = s_.func
+        ok = False
+        while f is not None:
+            if a.id in f.params:
+                break
+            if _fresh_local(f, a.id):
+                ok = True
+                break
+            f = f.outer
+        if not ok:
+            return False
+        handed += 1
+    return True
+
+
 def effects(ctx: Ctx):
     repo = ctx.repo
     types = ctx.types
@@ -440,6 +485,8 @@ def effects(ctx: Ctx):
                     continue
                 if IMMUTABLE_T.search(t):
                     continue  # would raise at run time; not an in-place change
+                if isinstance(root, ast.Name) and root.id in owner.params and _param_always_fresh(repo, owner, root.id):
+                    continue  # a scratch container: every caller hands in one it has just built (or nothing)
                 ctx.violation("D2", "IM.effect", f"{owner.qualname}: `{flow.dump(node)[:50]}` item assignment", owner, node,
                               why=f"item assignment on `{flow.dump(recv)[:40]}` (static type {t[:50] or 'unknown'}), which is not a freshly built local", construct=f"{owner.qualname}:item-store:{flow.dump(recv)[:30]}")
             # ---- augmented assignment on containers
